@@ -388,6 +388,11 @@ class Engine:
             b0 = bs[0]
             if size == 8 and all(isinstance(b, tuple) and b[1] is b0[1] and b[2] == i for i, b in enumerate(bs)):
                 return self.conv_loaded(b0[1], ty)
+            if k == "int":
+                # part of an address read as an integer (the optimiser hoists loads of a union's integer member
+                # above the test of its tag): the bits of an address are an arbitrary value
+                self.fresh_n = getattr(self, "fresh_n", 0) + 1
+                return z3.BitVec("addr_bits_%d" % self.fresh_n, ty.bits)
             raise EngineError("partial read of a pointer value")
         parts = [bv(b, 8) for b in reversed(bs)]
         v = z3.Concat(*parts) if len(parts) > 1 else parts[0]
